@@ -150,14 +150,23 @@ class Transformation(object):
         if type(other) == date:
             timediff = (other - self.ref_epoch).days/365.25
 
-            if type(self.tf_sd) == TransformationSD:
-                self.tf_sd.sd_tx = (self.tf_sd.sd_tx**2 + (self.tf_sd.sd_d_tx * timediff)**2) ** 0.5
-                self.tf_sd.sd_ty = (self.tf_sd.sd_ty**2 + (self.tf_sd.sd_d_ty * timediff)**2) ** 0.5
-                self.tf_sd.sd_tz = (self.tf_sd.sd_tz**2 + (self.tf_sd.sd_d_tz * timediff)**2) ** 0.5
-                self.tf_sd.sd_sc = (self.tf_sd.sd_sc**2 + (self.tf_sd.sd_d_sc * timediff)**2) ** 0.5
-                self.tf_sd.sd_rx = (self.tf_sd.sd_rx**2 + (self.tf_sd.sd_d_rx * timediff)**2) ** 0.5
-                self.tf_sd.sd_ry = (self.tf_sd.sd_ry**2 + (self.tf_sd.sd_d_ry * timediff)**2) ** 0.5
-                self.tf_sd.sd_rz = (self.tf_sd.sd_rz**2 + (self.tf_sd.sd_d_rz * timediff)**2) ** 0.5
+            # Propagate the parameter uncertainties to the new epoch in a new
+            # TransformationSD object: self.tf_sd is shared with every
+            # transformation derived from this one and must not be altered
+            tf_sd = self.tf_sd
+            if type(tf_sd) == TransformationSD:
+                tf_sd = TransformationSD(
+                    sd_tx=(tf_sd.sd_tx**2 + (tf_sd.sd_d_tx * timediff)**2) ** 0.5,
+                    sd_ty=(tf_sd.sd_ty**2 + (tf_sd.sd_d_ty * timediff)**2) ** 0.5,
+                    sd_tz=(tf_sd.sd_tz**2 + (tf_sd.sd_d_tz * timediff)**2) ** 0.5,
+                    sd_sc=(tf_sd.sd_sc**2 + (tf_sd.sd_d_sc * timediff)**2) ** 0.5,
+                    sd_rx=(tf_sd.sd_rx**2 + (tf_sd.sd_d_rx * timediff)**2) ** 0.5,
+                    sd_ry=(tf_sd.sd_ry**2 + (tf_sd.sd_d_ry * timediff)**2) ** 0.5,
+                    sd_rz=(tf_sd.sd_rz**2 + (tf_sd.sd_d_rz * timediff)**2) ** 0.5,
+                    sd_d_tx=tf_sd.sd_d_tx, sd_d_ty=tf_sd.sd_d_ty,
+                    sd_d_tz=tf_sd.sd_d_tz, sd_d_sc=tf_sd.sd_d_sc,
+                    sd_d_rx=tf_sd.sd_d_rx, sd_d_ry=tf_sd.sd_d_ry,
+                    sd_d_rz=tf_sd.sd_d_rz)
 
             return Transformation(self.to_datum,
                                   self.from_datum,
@@ -176,7 +185,7 @@ class Transformation(object):
                                   self.d_rx,
                                   self.d_ry,
                                   self.d_rz,
-                                  self.tf_sd
+                                  tf_sd
                                   )
         else:
             ValueError('supports adding datetime.date objects only')
